@@ -3,6 +3,7 @@
   Unknown or malformed lines answer `bad-op` (never a silent default).
 -/
 import HealSparse.Model.Api
+import HealSparse.Model.Valid
 import HealSparse.Model.Text
 namespace HS
 
@@ -86,6 +87,37 @@ def stepArgs (w : World) (op : String) (a : Args) : World × String :=
       | .ok vs =>
         if a.flag "vm" then (w, showBits (vs.map m.vc.valid)) else (w, showVals vs)
       | .error e => (w, errLine e)
+  | "valid" => withMap w a fun m =>
+    match validPixels m.c m.vc m.st with
+    | some l => (w, showList toString (l.mergeSort (· ≤ ·)))
+    | none => (w, errLine .index)
+  | "nvalid" => withMap w a fun m =>
+    -- `n_valid` with its cache (`_n_valid`)
+    match m.cache with
+    | some n => (w, toString n)
+    | none =>
+      if a.get? "path" == some "str" && m.kind == .packed then (w, "nocount") else
+      let n := nValid m.vc m.st
+      (w.put (a.pos.headD "") { m with cache := some n }, toString n)
+  | "covmap" => withMap w a fun m => (w, showNats (coverageCounts m.c m.vc m.st))
+  | "vpsc" => withMap w a fun m =>
+    match a.nat? "k" with
+    | none => (w, "bad-op:k")
+    | some k =>
+      if k ≥ m.c.ncov then (w, errLine .index) else
+      match validPixelsSingleCovpix m.c m.vc m.st k with
+      | some l => (w, showList toString (l.mergeSort (· ≤ ·)))
+      | none => (w, errLine .index)
+  | "fracdet" => withMap w a fun m =>
+    match a.get? "r", a.nat? "ord" with
+    | some r, some ord =>
+      if ord > m.spord || ord < m.covord then (w, errLine .value) else
+      let g := 2 * (m.spord - ord)
+      let fs := fracdetCounts m.c m.vc m.st g
+      let sp : Array Val := fs.sp.map fun (n : Nat) => let x := dyNorm ((n : Nat) : Int) g; Val.num x.1 x.2
+      (w.put r { covord := m.covord, spord := ord, kind := .plain (.flt 64), sent := .num 0 0,
+                 st := ⟨fs.cov, sp⟩ }, "ok")
+    | _, _ => (w, "bad-op:fracdet")
   | "covmask" => withMap w a fun m => (w, showBits (apiCovMask m))
   | "dump" => withMap w a fun m => (w, showState m)
   | "state" => withMap w a fun m =>
